@@ -270,6 +270,7 @@ func (c *checker) run() int {
 		if wr.Failure != nil {
 			// a failure in the determinism sample is handled by the main batch too,
 			// but report it through the normal path right away
+			c.failW = &wr
 			return c.handleFailure(wr.Failure, nil)
 		}
 	}
@@ -531,7 +532,7 @@ func (c *checker) handleFailure(t *kit.Trace, agg *kit.Stats) int {
 	if base == nil {
 		return c.fail2("replay of failing run could not run (exit %d): %s", code, se)
 	}
-	if base.Viol == nil && !c.desc.FreshProcess && c.failW != nil {
+	if base.Viol == nil && c.failW != nil {
 		if rc, handled := c.sequenceReplay(t); handled {
 			return rc
 		}
@@ -651,8 +652,8 @@ func (c *checker) sequenceReplay(t *kit.Trace) (int, bool) {
 			return nil
 		}
 		rr, _, _ := c.replayOnce(p)
-		if rr != nil && rr.Viol != nil && rr.Viol.Class == class {
-			return rr
+		if rr != nil && rr.Viol != nil {
+			return rr // (the class may differ from the batch's: what matters is a violation that replays)
 		}
 		return nil
 	}
@@ -685,9 +686,10 @@ func (c *checker) sequenceReplay(t *kit.Trace) (int, bool) {
 	if final.WriteFile(path) != nil {
 		return 0, false
 	}
-	if rr, _, _ := c.replayOnce(path); rr == nil || rr.Viol == nil || rr.Viol.Class != class {
+	if rr, _, _ := c.replayOnce(path); rr == nil || rr.Viol == nil || rr.Viol.Class != hit.Viol.Class {
 		return 0, false
 	}
+	class = hit.Viol.Class
 	fmt.Printf("violation: class=%s key=%s\n%s\n", hit.Viol.Class, hit.Viol.Key, hit.Viol.Detail)
 	fmt.Printf("replay re-draws runs %d..%d of worker sequence (start %d, stride %d) of VERIF_SEED %d in one fresh process\n", from, w.FailN, w.First, w.Stride, c.seed)
 	agg := kit.NewStats()
